@@ -1,4 +1,7 @@
 import Verif.C12.Lemmas
+import Verif.C12.Order
+import Verif.C12.MatrixTheory
+import Verif.C12.Generated
 /-
 C12 — property theorems.
 
@@ -269,5 +272,455 @@ theorem old_comparator_witness :
     ¬ (okeys (obs (printCore (mergeRuns oldRuns)))).Nodup ∧
     (okeys (output oldRuns)).Nodup := by
   refine ⟨by decide, by decide, (out_nodup oldRuns).1⟩
+
+
+/-! ## Strengthening round: mixed strategies, the hypothesis CaseConsistent, the comparator
+of the source, `-f binary` normalisation, the `-matrix` parser and the matrix clause -/
+
+/-! ### any/all for arbitrary (also mixed) strategies of one descriptor -/
+
+/-- The any/all rule without any assumption on how strategies are distributed: a problem
+is printed iff some run reports it with the 'any' strategy, or some run reports it with
+the 'all' strategy and every run that checked its file reports it (with whatever
+strategy).  Reports with another strategy value never make a problem appear. -/
+theorem kept_iff_strategies (runs : List Run) (hc : CaseConsistent runs) (k : Desc) :
+    k ∈ okeys (output runs) ↔
+      (∃ r ∈ runs, ∃ d ∈ r.diags, d.desc = k ∧ d.mergeIf = 0) ∨
+      ((∃ r ∈ runs, ∃ d ∈ r.diags, d.desc = k ∧ d.mergeIf = 1) ∧
+        ∀ r ∈ runs, k.pos.file ∈ r.checked → r.has k = true) := by
+  rw [kept_iff runs hc]
+  constructor
+  · rintro ⟨r, hr, d, hd, hk, hrel⟩
+    unfold relevant at hrel
+    split at hrel
+    · rename_i h0; exact Or.inl ⟨r, hr, d, hd, hk, h0⟩
+    · split at hrel
+      · rename_i _ h1
+        have := (keepAll_iff runs d).mp hrel
+        rw [hk] at this
+        exact Or.inr ⟨⟨r, hr, d, hd, hk, h1⟩, this⟩
+      · cases hrel
+  · rintro (⟨r, hr, d, hd, hk, h0⟩ | ⟨⟨r, hr, d, hd, hk, h1⟩, hall⟩)
+    · exact ⟨r, hr, d, hd, hk, by simp [relevant, h0]⟩
+    · refine ⟨r, hr, d, hd, hk, ?_⟩
+      have : keepAll runs d = true := (keepAll_iff runs d).mpr (by rw [hk]; exact hall)
+      simp [relevant, h1, this]
+
+/-- a run set in which one descriptor is reported with the 'all' strategy by linux (and
+dropped there: windows checked the file and is silent about line 1) while line 3 is
+reported as 'all' by linux and as 'any' by windows -/
+def mixRuns : List Run :=
+  [⟨["x.go"], [exD 1 "U1000" 1 "linux", exD 3 "S1" 1 "linux"]⟩,
+   ⟨["x.go"], [exD 3 "S1" 0 "windows"]⟩,
+   ⟨["x.go"], [exD 5 "S2" 7 "darwin"]⟩]
+
+theorem mixRuns_cc : CaseConsistent mixRuns := by
+  intro r hr d hd r' hr' d' hd'
+  simp [mixRuns] at hr hr'
+  rcases hr with rfl | rfl | rfl <;> rcases hr' with rfl | rfl | rfl <;> simp at hd hd' <;>
+    (try rcases hd with rfl | rfl) <;> (try rcases hd' with rfl | rfl) <;> (try subst hd) <;>
+    (try subst hd') <;> decide
+
+-- non-vacuity: both disjuncts and the negative case occur in `mixRuns`
+example : (exD 3 "S1" 0 "").desc ∈ okeys (output mixRuns) ∧ (exD 1 "U1000" 1 "").desc ∉ okeys (output mixRuns) ∧
+    (exD 5 "S2" 7 "").desc ∉ okeys (output mixRuns) := by
+  refine ⟨?_, ?_, ?_⟩
+  · rw [kept_iff_strategies mixRuns mixRuns_cc]; decide
+  · rw [kept_iff_strategies mixRuns mixRuns_cc]; decide
+  · rw [kept_iff_strategies mixRuns mixRuns_cc]; decide
+
+/-- Build names for arbitrary strategies: a printed problem carries exactly the build
+names of those of its reports that the any/all rule accepts. -/
+theorem builds_exact_strategies (runs : List Run) (hc : CaseConsistent runs) (k : Desc) (ns : List String)
+    (h : (k, ns) ∈ output runs) (n : String) :
+    n ∈ ns ↔ ∃ r ∈ runs, ∃ d ∈ r.diags, d.desc = k ∧ d.build = n ∧
+      (d.mergeIf = 0 ∨ (d.mergeIf = 1 ∧ ∀ r' ∈ runs, k.pos.file ∈ r'.checked → r'.has k = true)) := by
+  rw [(builds_exact runs hc k ns h).1 n]
+  unfold Reported
+  constructor
+  · rintro ⟨r, hr, d, hd, hk, hb, hrel⟩
+    refine ⟨r, hr, d, hd, hk, hb, ?_⟩
+    unfold relevant at hrel
+    split at hrel
+    · rename_i h0; exact Or.inl h0
+    · split at hrel
+      · rename_i _ h1
+        have := (keepAll_iff runs d).mp hrel
+        rw [hk] at this
+        exact Or.inr ⟨h1, this⟩
+      · cases hrel
+  · rintro ⟨r, hr, d, hd, hk, hb, h0 | ⟨h1, hall⟩⟩
+    · exact ⟨r, hr, d, hd, hk, hb, by simp [relevant, h0]⟩
+    · have : keepAll runs d = true := (keepAll_iff runs d).mpr (by rw [hk]; exact hall)
+      exact ⟨r, hr, d, hd, hk, hb, by simp [relevant, h1, this]⟩
+
+-- linux' report of line 3 carries 'all' and is not accepted (darwin checked x.go and is
+-- silent), windows' report carries 'any': the line is printed for windows only
+theorem mixRuns_output : output mixRuns = [((exD 3 "S1" 0 "").desc, ["windows"])] := by decide
+
+example : "windows" ∈ ["windows"] ↔ ∃ r ∈ mixRuns, ∃ d ∈ r.diags, d.desc = (exD 3 "S1" 0 "").desc ∧ d.build = "windows" ∧
+      (d.mergeIf = 0 ∨ (d.mergeIf = 1 ∧ ∀ r' ∈ mixRuns, (exD 3 "S1" 0 "").desc.pos.file ∈ r'.checked → r'.has (exD 3 "S1" 0 "").desc = true)) :=
+  builds_exact_strategies mixRuns mixRuns_cc _ _ (by rw [mixRuns_output]; simp) "windows"
+
+/-! ### the hypothesis CaseConsistent is necessary -/
+
+def ciRun : Run := ⟨["x.go"], [exD 1 "SA1000" 0 "linux", exD 1 "sa1000" 0 "linux"]⟩
+def ciRuns : List Run := [ciRun]
+
+/-- Without `CaseConsistent` the property is false for the code as it is: `diagnostic.equal`
+folds the case of the category, the descriptor does not, so of two problems of 'any'
+checks that differ only in the spelling of the check one is swallowed.  (The check feeds
+exactly such runs to the real binary and compares with the model; the hypothesis itself
+is probed on the real registry: analyzer names are distinct after case folding.) -/
+theorem case_inconsistent_witness :
+    ¬ CaseConsistent ciRuns ∧
+    (∃ r ∈ ciRuns, ∃ d ∈ r.diags, d.mergeIf = 0 ∧ d.desc ∉ okeys (output ciRuns)) ∧
+    output ciRuns = [((exD 1 "SA1000" 0 "").desc, ["linux"])] := by
+  refine ⟨?_, ?_, by decide⟩
+  · intro h
+    have := h ciRun (by simp [ciRuns]) (exD 1 "SA1000" 0 "linux") (by simp [ciRun])
+      ciRun (by simp [ciRuns]) (exD 1 "sa1000" 0 "linux") (by simp [ciRun]) (by decide)
+    revert this; decide
+  · exact ⟨ciRun, by simp [ciRuns], exD 1 "sa1000" 0 "linux", by simp [ciRun], rfl, by decide⟩
+
+/-! ### the comparator of the source (tie G) -/
+
+/-- For EVERY comparator that decides by a strict total order on descriptors first — in
+particular `lessG fs` for every field order `fs` that compares all ten descriptor fields
+before any other field — and every permutation of `mergeRuns runs` sorted for it: no
+problem is printed twice, and the printed lines (descriptor + build names) are, as a set,
+exactly those of `output runs`. -/
+theorem out_any_desc_first_order (dlt : Desc → Desc → Prop) (hd : STO dlt) (lt : Diag → Diag → Prop)
+    (hlt : ∀ a b : Diag, dlt a.desc b.desc → lt a b)
+    (runs : List Run) (hc : CaseConsistent runs) (s : List Diag)
+    (hp : s.Perm (mergeRuns runs)) (hs : SortedBy lt s) :
+    (okeys (obs (printCore s))).Pairwise dlt ∧ (okeys (obs (printCore s))).Nodup ∧
+    ∀ k ns, (k, ns) ∈ obs (printCore s) ↔ (k, ns) ∈ output runs := by
+  have hm : ∀ x, x ∈ s ↔ x ∈ sortDiags (mergeRuns runs) := fun x =>
+    hp.mem_iff.trans (sortDiags_perm _).mem_iff.symm
+  have ok1 : EqOK s := eqOK_of_caseConsistent hc (fun x hx => hp.mem_iff.mp hx)
+  have ok2 : EqOK (sortDiags (mergeRuns runs)) :=
+    eqOK_of_caseConsistent hc (fun x hx => (sortDiags_perm _).mem_iff.mp hx)
+  have pw := printCore_keys_pairwiseG dlt hd lt hlt hs
+  have c2 : Canon (output runs) := printCore_canon (sortDiags_sorted _)
+  have keys : ∀ k, k ∈ okeys (obs (printCore s)) ↔ k ∈ okeys (output runs) := by
+    intro k
+    unfold output
+    rw [printCore_keys ok1, printCore_keys ok2]
+    constructor <;> (rintro ⟨x, hx, h⟩; exact ⟨x, by first | exact (hm x).mp hx | exact (hm x).mpr hx, h⟩)
+  have pairs : ∀ k n, opair (obs (printCore s)) k n ↔ opair (output runs) k n := by
+    intro k n
+    unfold output
+    rw [printCore_pairs ok1, printCore_pairs ok2]
+    constructor <;> (rintro ⟨x, hx, h⟩; exact ⟨x, by first | exact (hm x).mp hx | exact (hm x).mpr hx, h⟩)
+  refine ⟨pw, ?_, ?_⟩
+  · exact List.Pairwise.imp (fun {a b} (h : dlt a b) (e : a = b) => hd.irrefl a (by rw [← e] at h; exact h)) pw
+  · intro k ns
+    constructor
+    · intro h
+      have hk : k ∈ okeys (output runs) := (keys k).mp (List.mem_map.mpr ⟨(k, ns), h, rfl⟩)
+      rcases List.mem_map.mp hk with ⟨⟨k', ns'⟩, hm', hk'⟩
+      simp only at hk'; subst hk'
+      have : ns = ns' := by
+        apply eq_of_pairwise_of_mem_iff sto_sLt.irrefl sto_sLt.trans _ _
+          (printCore_names_sorted s _ h) (c2.names _ hm')
+        intro n
+        constructor
+        · intro hn
+          rcases (pairs k' n).mp ⟨ns, h, hn⟩ with ⟨ms, hms, hn'⟩
+          rw [canon_unique_entry c2.keys hm' hms]; exact hn'
+        · intro hn
+          rcases (pairs k' n).mpr ⟨ns', hm', hn⟩ with ⟨ms, hms, hn'⟩
+          rw [unique_entry_of_pairwise hd.irrefl pw h hms]; exact hn'
+      rw [this]; exact hm'
+    · intro h
+      have hk : k ∈ okeys (obs (printCore s)) := (keys k).mpr (List.mem_map.mpr ⟨(k, ns), h, rfl⟩)
+      rcases List.mem_map.mp hk with ⟨⟨k', ns'⟩, hm', hk'⟩
+      simp only at hk'; subst hk'
+      have : ns = ns' := by
+        apply eq_of_pairwise_of_mem_iff sto_sLt.irrefl sto_sLt.trans _ _
+          (c2.names _ h) (printCore_names_sorted s _ hm')
+        intro n
+        constructor
+        · intro hn
+          rcases (pairs k' n).mpr ⟨ns, h, hn⟩ with ⟨ms, hms, hn'⟩
+          rw [unique_entry_of_pairwise hd.irrefl pw hm' hms]; exact hn'
+        · intro hn
+          rcases (pairs k' n).mp ⟨ns', hm', hn⟩ with ⟨ms, hms, hn'⟩
+          rw [canon_unique_entry c2.keys h hms]; exact hn'
+      rw [this]; exact hm'
+
+/-- The same for a comparator given by a field order. -/
+theorem out_desc_first_fields (fs : List Field) (hfs : DescFirst fs = true)
+    (runs : List Run) (hc : CaseConsistent runs) (s : List Diag)
+    (hp : s.Perm (mergeRuns runs)) (hs : s.Pairwise (fun a b => lessG fs b a = false)) :
+    (okeys (obs (printCore s))).Nodup ∧ ∀ k ns, (k, ns) ∈ obs (printCore s) ↔ (k, ns) ∈ output runs := by
+  obtain ⟨dlt, hd, hlt⟩ := lessG_desc_first fs hfs
+  have hs' : SortedBy (fun a b => lessG fs a b = true) s :=
+    List.Pairwise.imp (fun {a b} (h : lessG fs b a = false) => by simp [h]) hs
+  exact (out_any_desc_first_order dlt hd _ hlt runs hc s hp hs').2
+
+/-- The field order extracted from the `less` closure in the source on this run compares
+the whole descriptor before the build name (or severity / strategy). -/
+theorem source_order_desc_first : DescFirst Generated.lessFields = true := by decide
+
+/-- Hence: sorting with the comparator of the source and de-duplicating prints each kept
+problem once, with the build names the model computes. -/
+theorem out_source_order (runs : List Run) (hc : CaseConsistent runs) (s : List Diag)
+    (hp : s.Perm (mergeRuns runs)) (hs : s.Pairwise (fun a b => lessG Generated.lessFields b a = false)) :
+    (okeys (obs (printCore s))).Nodup ∧ ∀ k ns, (k, ns) ∈ obs (printCore s) ↔ (k, ns) ∈ output runs :=
+  out_desc_first_fields _ source_order_desc_first runs hc s hp hs
+
+-- non-vacuity: a field order different from the model's (End before the message, offsets
+-- first among the End fields, severity before the build name) is descriptor-first, and a
+-- list sorted for it prints the lines of `output exRuns`; the pre-fix order is not
+example : DescFirst [.posFile, .posLine, .posCol, .endOff, .endFile, .endLine, .endCol, .msg, .posOff, .cat, .sev, .build] = true ∧
+    DescFirst [.posFile, .posLine, .posCol, .msg, .build, .cat] = false ∧ DescFirst modelFields = true := by decide
+
+example : ∀ k ns, (k, ns) ∈ obs (printCore [exD 2 "SA1000" 0 "linux", exD 2 "SA1000" 0 "windows",
+    exD 3 "U1000" 1 "linux", exD 3 "U1000" 1 "windows"]) ↔ (k, ns) ∈ output exRuns :=
+  (out_source_order exRuns exRuns_cc _ (by decide) (by decide)).2
+
+/-! ### `-f binary`: the merge key does not depend on the checkout location or on offsets -/
+
+/-- Two `-f binary` runs over checkouts of the same code at different places (and with
+different newline conventions, hence different byte offsets), started from the same
+place inside the checkout, write the same run: equal checked files, equal diagnostics,
+hence equal merge keys. -/
+theorem binary_location_offset_independent (reg : Registry) (name : String)
+    (root root' : List String) (cwd cwd' : String) (hc : RelocCwd root root' cwd cwd')
+    (raw raw' : RawResult) (h : SameRawResult root root' raw raw') :
+    binOut cwd (lintRun reg name raw) = binOut cwd' (lintRun reg name raw') ∧
+    binaryRun reg cwd name raw = binaryRun reg cwd' name raw' := by
+  have := binOut_reloc hc reg name h
+  exact ⟨this, by simp only [binaryRun, this]⟩
+
+/-- no byte offset survives `-f binary` -/
+theorem binary_offsets_cleared (reg : Registry) (cwd name : String) (raw : RawResult) :
+    ∀ d ∈ (binaryRun reg cwd name raw).diags, d.desc.pos.off = 0 ∧ d.desc.end_.off = 0 := by
+  intro d hd
+  have := mem_runFromLintResult hd
+  simp only [binOut, List.mem_map] at this
+  rcases this with ⟨x, _, rfl⟩
+  exact binDiag_off cwd x
+
+def exRawUnix : RawResult := ⟨["/home/ci/src/a.go"],
+  [⟨⟨⟨"/home/ci/src/a.go", 61, 5, 9⟩, ⟨"/home/ci/src/a.go", 67, 5, 15⟩, "SA4000", "m"⟩, 0, false⟩,
+   ⟨⟨⟨"/home/ci/src/a.go", 200, 14, 6⟩, ⟨"", 0, 0, 0⟩, "U1000", "func unused is unused"⟩, 0, true⟩]⟩
+def exRawWin : RawResult := ⟨["/c/work/x/src/a.go"],
+  [⟨⟨⟨"/c/work/x/src/a.go", 65, 5, 9⟩, ⟨"/c/work/x/src/a.go", 71, 5, 15⟩, "SA4000", "m"⟩, 0, false⟩,
+   ⟨⟨⟨"/c/work/x/src/a.go", 213, 14, 6⟩, ⟨"", 0, 0, 0⟩, "U1000", "func unused is unused"⟩, 0, true⟩]⟩
+
+-- non-vacuity: an LF checkout under /home/ci and a CRLF checkout under /c/work/x
+example : binaryRun [("SA4000", 0)] "/home/ci/src" "b" exRawUnix = binaryRun [("SA4000", 0)] "/c/work/x/src" "b" exRawWin := by
+  refine (binary_location_offset_independent [("SA4000", 0)] "b" ["home", "ci"] ["c", "work", "x"]
+    "/home/ci/src" "/c/work/x/src" ⟨by decide, by decide, ⟨["src"], by decide, by decide⟩⟩ exRawUnix exRawWin ?_).2
+  have pA : RelocPath ["home", "ci"] ["c", "work", "x"] "/home/ci/src/a.go" "/c/work/x/src/a.go" :=
+    Or.inr ⟨by decide, by decide, ["src", "a.go"], by decide, by decide⟩
+  have pE : RelocPath ["home", "ci"] ["c", "work", "x"] "" "" := Or.inl ⟨by decide, rfl⟩
+  exact ⟨All2.cons pA All2.nil,
+    All2.cons ⟨pA, rfl, rfl, pA, rfl, rfl, rfl, rfl, rfl, rfl⟩
+      (All2.cons ⟨pA, rfl, rfl, pE, rfl, rfl, rfl, rfl, rfl, rfl⟩ All2.nil)⟩
+
+example : (binaryRun [("SA4000", 0)] "/home/ci/src" "b" exRawUnix).diags.map (fun d => d.desc.pos.file) = ["a.go", "a.go"] := by decide
+
+/-- one `-f binary` invocation: working directory, build name, findings -/
+abbrev BinInv := String × String × RawResult
+
+/-- The result of `-merge` over runs from relocated / re-encoded checkouts is the same. -/
+theorem merge_location_independent (reg : Registry) (xs ys : List BinInv)
+    (h : All2 (fun (x y : BinInv) => x.2.1 = y.2.1 ∧ ∃ root root', RelocCwd root root' x.1 y.1 ∧
+      SameRawResult root root' x.2.2 y.2.2) xs ys) :
+    output (xs.map fun x => binaryRun reg x.1 x.2.1 x.2.2) = output (ys.map fun y => binaryRun reg y.1 y.2.1 y.2.2) := by
+  have : (xs.map fun x => binaryRun reg x.1 x.2.1 x.2.2) = (ys.map fun y => binaryRun reg y.1 y.2.1 y.2.2) :=
+    map_eq_of_all2 (fun x y hxy => by
+      obtain ⟨hn, root, root', hcw, hr⟩ := hxy
+      rw [hn]
+      exact (binary_location_offset_independent reg y.2.1 root root' x.1 y.1 hcw x.2.2 y.2.2 hr).2) h
+  rw [this]
+
+example : output ([("/home/ci/src", "b", exRawUnix)].map fun x => binaryRun [("SA4000", 0)] x.1 x.2.1 x.2.2) =
+    output ([("/c/work/x/src", "b", exRawWin)].map fun y => binaryRun [("SA4000", 0)] y.1 y.2.1 y.2.2) := by
+  apply merge_location_independent
+  refine All2.cons ⟨rfl, ["home", "ci"], ["c", "work", "x"], ⟨by decide, by decide, ⟨["src"], by decide, by decide⟩⟩, ?_⟩ All2.nil
+  have pA : RelocPath ["home", "ci"] ["c", "work", "x"] "/home/ci/src/a.go" "/c/work/x/src/a.go" :=
+    Or.inr ⟨by decide, by decide, ["src", "a.go"], by decide, by decide⟩
+  have pE : RelocPath ["home", "ci"] ["c", "work", "x"] "" "" := Or.inl ⟨by decide, rfl⟩
+  exact ⟨All2.cons pA All2.nil,
+    All2.cons ⟨pA, rfl, rfl, pA, rfl, rfl, rfl, rfl, rfl, rfl⟩
+      (All2.cons ⟨pA, rfl, rfl, pE, rfl, rfl, rfl, rfl, rfl, rfl⟩ All2.nil)⟩
+
+/-! ### the `-matrix` line syntax -/
+
+/-- the lines of stdin that count: split at '\n', each piece trimmed (`strings.TrimSpace`,
+so a '\r' before the newline goes too), blank pieces dropped -/
+def matrixLines (stdin : List Char) : List (List Char) := trimmedLines (splitC '\n' stdin)
+
+/-- `parseBuildConfigs` is a function of these lines only, and it succeeds with `cfgs`
+exactly when every one of them parses; `cfgs` then is, in order, one configuration per
+non-blank line: the parse of that line.  No line is dropped or duplicated, whatever the
+newline conventions. -/
+theorem matrix_lines (stdin : List Char) :
+    parseBuildConfigs stdin = parseLines 0 (matrixLines stdin) ∧
+    ∀ cfgs, parseBuildConfigs stdin = .ok cfgs ↔
+      All2 (fun l c => parseBuildConfig l = .ok c) (matrixLines stdin) cfgs := by
+  have h : parseBuildConfigs stdin = parseLines 0 (matrixLines stdin) := pbcLoop_eq_parseLines _ 0
+  exact ⟨h, fun cfgs => by rw [h]; exact parseLines_ok_iff _ 0 cfgs⟩
+
+theorem matrix_line_count (stdin : List Char) (cfgs : List BuildConfig)
+    (h : parseBuildConfigs stdin = .ok cfgs) : cfgs.length = (matrixLines stdin).length :=
+  (((matrix_lines stdin).2 cfgs).mp h).length_eq.symm
+
+/-- a final newline (or its absence) makes no difference — the defect fixed in 49a863d -/
+theorem matrix_trailing_newline (stdin : List Char) :
+    parseBuildConfigs (stdin ++ ['\n']) = parseBuildConfigs stdin := by
+  unfold parseBuildConfigs
+  rw [splitC_append_sep]
+  exact pbcLoop_append_blank [] trimSpace_nil _ 0
+
+/-- blank lines anywhere make no difference -/
+theorem matrix_blank_lines (stdin stdin' : List Char) (h : matrixLines stdin = matrixLines stdin') :
+    parseBuildConfigs stdin = parseBuildConfigs stdin' := by
+  rw [(matrix_lines stdin).1, (matrix_lines stdin').1, h]
+
+/-- `name:` names a configuration without flags; `name: -flag` one with that flag -/
+theorem matrix_line_meaning (name arg : List Char) (hn : ∀ c ∈ name, isNameC c = true)
+    (ha : ∀ c ∈ arg, isSpaceC c = false ∧ c ≠ '"') :
+    parseBuildConfig (name ++ [':']) = .ok ⟨String.ofList name, [], []⟩ ∧
+    parseBuildConfig (name ++ ':' :: ' ' :: '-' :: arg) = .ok ⟨String.ofList name, [], [String.ofList ('-' :: arg)]⟩ :=
+  ⟨parseBuildConfig_bare name hn, parseBuildConfig_flag name arg hn ha⟩
+
+def exStdin : List Char := "foo: -tags=foo\r\n\n  nofoo:  ".toList
+
+theorem exStdin_parse : parseBuildConfigs exStdin = .ok [⟨"foo", [], ["-tags=foo"]⟩, ⟨"nofoo", [], []⟩] := by decide
+
+example : (matrixLines exStdin).length = 2 ∧ parseBuildConfigs (exStdin ++ ['\n']) = parseBuildConfigs exStdin :=
+  ⟨by decide, matrix_trailing_newline exStdin⟩
+example : parseBuildConfigs exStdin = parseBuildConfigs "foo: -tags=foo\nnofoo:\n".toList :=
+  matrix_blank_lines _ _ (by decide)
+example : ([⟨"foo", [], ["-tags=foo"]⟩, ⟨"nofoo", [], []⟩] : List BuildConfig).length = (matrixLines exStdin).length :=
+  matrix_line_count exStdin _ exStdin_parse
+example : parseBuildConfig "foo: -tags=foo".toList = .ok ⟨"foo", [], ["-tags=foo"]⟩ :=
+  (matrix_line_meaning "foo".toList "tags=foo".toList (by decide) (by decide)).2
+example : parseBuildConfigs "ok:\nbad name: -x\n".toList = .error (2, .invalidName) ∧
+    parseBuildConfigs "a: \"b".toList = .error (1, .unterminated) ∧
+    parseBuildConfigs "x".toList = .error (1, .missingName) := by decide
+
+/-! ### the matrix clause: `-matrix` = merging one run per build configuration -/
+
+/-- any/all in terms of the build configurations: a problem of a check documented 'any'
+is printed iff some configuration reports it; a problem of a check documented 'all' (or
+U1000) iff some configuration reports it and every configuration that checked its file
+reports it.  Hypotheses are about the runner only (`RawOK`). -/
+theorem matrix_any_all (reg : Registry) (lintOf : List String → List String → RawResult)
+    (cfgs : List BuildConfig) (hok : RawOK (matrixRaws lintOf cfgs)) (k : Desc) :
+    (docStrategy reg k.cat = 0 →
+      (k ∈ okeys (output (matrixRuns reg lintOf cfgs)) ↔ ∃ c ∈ cfgs, reports lintOf c k)) ∧
+    (docStrategy reg k.cat = 1 →
+      (k ∈ okeys (output (matrixRuns reg lintOf cfgs)) ↔
+        (∃ c ∈ cfgs, reports lintOf c k) ∧
+        ∀ c ∈ cfgs, k.pos.file ∈ (cfgRaw lintOf c).checked → reports lintOf c k)) := by
+  have hc := matrix_caseConsistent reg lintOf cfgs hok
+  have hmi : ∀ r ∈ matrixRuns reg lintOf cfgs, ∀ d ∈ r.diags, d.desc = k → d.mergeIf = docStrategy reg k.cat := by
+    intro r hr d hd hk
+    rw [← hk]; exact matrix_mergeIf reg lintOf cfgs hok hr hd
+  constructor
+  · intro h0
+    rw [kept_iff_strategies _ hc, ← matrix_reported_iff reg]
+    constructor
+    · rintro (⟨r, hr, d, hd, hk, _⟩ | ⟨⟨r, hr, d, hd, hk, h1⟩, _⟩)
+      · exact ⟨r, hr, d, hd, hk⟩
+      · have := hmi r hr d hd hk; rw [h0] at this; omega
+    · rintro ⟨r, hr, d, hd, hk⟩
+      exact Or.inl ⟨r, hr, d, hd, hk, by rw [hmi r hr d hd hk, h0]⟩
+  · intro h1
+    rw [kept_iff_strategies _ hc, ← matrix_reported_iff reg, ← matrix_all_checked_iff reg]
+    constructor
+    · rintro (⟨r, hr, d, hd, hk, h0⟩ | ⟨⟨r, hr, d, hd, hk, _⟩, hall⟩)
+      · have := hmi r hr d hd hk; rw [h1] at this; omega
+      · exact ⟨⟨r, hr, d, hd, hk⟩, hall⟩
+    · rintro ⟨⟨r, hr, d, hd, hk⟩, hall⟩
+      exact Or.inr ⟨⟨r, hr, d, hd, hk, by rw [hmi r hr d hd hk, h1]⟩, hall⟩
+
+/-- every printed problem is annotated with exactly the names of the configurations
+that reported it -/
+theorem matrix_builds (reg : Registry) (lintOf : List String → List String → RawResult)
+    (cfgs : List BuildConfig) (hok : RawOK (matrixRaws lintOf cfgs)) (k : Desc) (ns : List String)
+    (h : (k, ns) ∈ output (matrixRuns reg lintOf cfgs)) (n : String) :
+    n ∈ ns ↔ ∃ c ∈ cfgs, c.name = n ∧ reports lintOf c k := by
+  have hc := matrix_caseConsistent reg lintOf cfgs hok
+  have hu : UniformStrategy (matrixRuns reg lintOf cfgs) := by
+    intro r hr d hd r' hr' d' hd' he
+    rw [matrix_mergeIf reg lintOf cfgs hok hr hd, matrix_mergeIf reg lintOf cfgs hok hr' hd', he]
+  rw [builds_exact_uniform _ hc hu k ns h n]
+  constructor
+  · rintro ⟨r, hr, d, hd, hk, hb⟩
+    rcases (mem_matrixRuns _ _ _ _).mp hr with ⟨c, hcm, rfl⟩
+    rcases mem_cfgRun hd with ⟨rd, hrd, rfl⟩
+    exact ⟨c, hcm, hb, rd, hrd, hk⟩
+  · rintro ⟨c, hcm, hn, hrep⟩
+    rcases (Run.has_iff _ _).mp ((has_cfgRun reg lintOf c k).mpr hrep) with ⟨d, hd, hk⟩
+    refine ⟨cfgRun reg lintOf c, (mem_matrixRuns _ _ _ _).mpr ⟨c, hcm, rfl⟩, d, hd, hk, ?_⟩
+    rcases mem_cfgRun hd with ⟨rd, _, rfl⟩
+    exact hn
+
+/-- the order of the matrix lines and repeated lines make no difference -/
+theorem matrix_order_repetition (reg : Registry) (lintOf : List String → List String → RawResult)
+    (cfgs cfgs' : List BuildConfig) (hok : RawOK (matrixRaws lintOf cfgs))
+    (h : ∀ c, c ∈ cfgs ↔ c ∈ cfgs') :
+    output (matrixRuns reg lintOf cfgs) = output (matrixRuns reg lintOf cfgs') := by
+  apply output_congr _ _ (matrix_caseConsistent reg lintOf cfgs hok)
+  intro r
+  rw [mem_matrixRuns, mem_matrixRuns]
+  constructor
+  · rintro ⟨c, hc, e⟩; exact ⟨c, (h c).mp hc, e⟩
+  · rintro ⟨c, hc, e⟩; exact ⟨c, (h c).mpr hc, e⟩
+
+/-- and neither does a final newline on stdin -/
+theorem matrix_newline (reg : Registry) (lintOf : List String → List String → RawResult)
+    (stdin : List Char) : matrixOutput reg lintOf (stdin ++ ['\n']) = matrixOutput reg lintOf stdin := by
+  simp only [matrixOutput, matrix_trailing_newline]
+
+/-! non-vacuity for the matrix clause: SA4003 ('all') fires in the shared file a.go only
+under -tags=foo, SA4000 ('any') under both, U1000 under both -/
+def exReg : Registry := [("SA4000", 0), ("SA4003", 1), ("U1000", 0)]
+def exRD (line : Int) (cat : String) (u : Bool) : RawDiag :=
+  ⟨⟨⟨"/m/a.go", 0, line, 1⟩, ⟨"", 0, 0, 0⟩, cat, "m"⟩, 0, u⟩
+def exLint : List String → List String → RawResult
+  | _, ["-tags=foo"] => ⟨["/m/a.go", "/m/t_foo.go"], [exRD 4 "SA4003" false, exRD 9 "SA4000" false, exRD 12 "U1000" true]⟩
+  | _, _ => ⟨["/m/a.go", "/m/t_nofoo.go"], [exRD 9 "SA4000" false, exRD 12 "U1000" true]⟩
+def exCfgs : List BuildConfig := [⟨"foo", [], ["-tags=foo"]⟩, ⟨"nofoo", [], []⟩]
+
+theorem exRawOK : RawOK (matrixRaws exLint exCfgs) := by
+  constructor
+  · intro raw hraw d hd
+    simp [matrixRaws, exCfgs, cfgRaw, exLint] at hraw
+    rcases hraw with rfl | rfl <;> simp at hd <;> rcases hd with rfl | rfl | rfl <;> decide
+  · intro raw hraw d hd raw' hraw' d' hd'
+    simp [matrixRaws, exCfgs, cfgRaw, exLint] at hraw hraw'
+    rcases hraw with rfl | rfl <;> rcases hraw' with rfl | rfl <;> simp at hd hd' <;>
+      rcases hd with rfl | rfl | rfl <;> rcases hd' with rfl | rfl | rfl <;> decide
+
+theorem exMatrix_output : matrixOutput exReg exLint exStdin =
+    .ok [((exRD 9 "SA4000" false).desc, ["foo", "nofoo"]), ((exRD 12 "U1000" true).desc, ["foo", "nofoo"])] := by decide
+
+example : (exRD 4 "SA4003" false).desc ∉ okeys (output (matrixRuns exReg exLint exCfgs)) ∧
+    (exRD 9 "SA4000" false).desc ∈ okeys (output (matrixRuns exReg exLint exCfgs)) := by
+  constructor
+  · rw [((matrix_any_all exReg exLint exCfgs exRawOK _).2 (by decide))]
+    intro h
+    have := h.2 ⟨"nofoo", [], []⟩ (by simp [exCfgs]) (by decide)
+    revert this; unfold reports; decide
+  · rw [((matrix_any_all exReg exLint exCfgs exRawOK _).1 (by decide))]
+    exact ⟨⟨"nofoo", [], []⟩, by simp [exCfgs], by unfold reports; decide⟩
+
+example : "nofoo" ∈ ["foo", "nofoo"] ↔ ∃ c ∈ exCfgs, c.name = "nofoo" ∧ reports exLint c (exRD 12 "U1000" true).desc :=
+  matrix_builds exReg exLint exCfgs exRawOK _ _ (by decide) "nofoo"
+
+example : output (matrixRuns exReg exLint exCfgs) = output (matrixRuns exReg exLint (exCfgs.reverse ++ exCfgs)) :=
+  matrix_order_repetition exReg exLint _ _ exRawOK (by intro c; simp [exCfgs]; grind)
+
+example : matrixOutput exReg exLint (exStdin ++ ['\n']) = matrixOutput exReg exLint exStdin :=
+  matrix_newline exReg exLint exStdin
 
 end Verif.C12
